@@ -709,7 +709,7 @@ func (x *H) sectionBatch(r *hx.Rng, scale int) {
 	cfgs := builtin()
 	n, runs := 0, 0
 	procsList := []int{1, 2, 3, 4, 8, 16}
-	for i := 0; i < 200*scale; i++ {
+	for i := 0; i < 150*scale; i++ {
 		c := cfgs[r.Intn(len(cfgs))]
 		if r.Intn(5) == 0 {
 			c = randomCfg(r)
@@ -761,14 +761,22 @@ func (x *H) sectionBatch(r *hx.Rng, scale int) {
 				}
 			}
 		}
-		if r.Intn(6) == 0 { // first header's ancestry unknown
+		// exactly one of: ancestry of the first header unknown / its grandparent unknown / some batch headers already known.
+		// (A known header whose own parent or grandparent is missing cannot occur in a chain database, which is closed under
+		// parents; the batch and one-by-one paths order the "known" short-cut differently there, so it is not generated.)
+		switch r.Intn(8) {
+		case 0:
 			stored = stored[:len(stored)-1]
-		} else if r.Intn(8) == 0 && len(stored) >= 2 { // grandparent unknown
-			stored = append(append([]*types.Header{}, stored[:len(stored)-2]...), stored[len(stored)-1])
-		}
-		if r.Intn(8) == 0 { // some batch headers already known
-			for k := 0; k < len(batch) && k < 1+r.Intn(3); k++ {
-				stored = append(append([]*types.Header{}, stored...), batch[k])
+		case 1:
+			if len(stored) >= 2 {
+				stored = append(append([]*types.Header{}, stored[:len(stored)-2]...), stored[len(stored)-1])
+			}
+		case 2:
+			if len(stored) >= 2 || stored[0].Number.Uint64() == 0 {
+				kn := 1 + r.Intn(3)
+				for k := 0; k < len(batch) && k < kn; k++ {
+					stored = append(append([]*types.Header{}, stored...), batch[k])
+				}
 			}
 		}
 		fail := uint64(0)
